@@ -99,6 +99,8 @@ class Contract:
     bound_self = None      # for methods: setup returns the `self` object as first positional argument
     trusted = ()           # human-readable assumed contracts used by this spec
     mutates = ()           # names of (mutable) parameters whose final value the contract talks about
+    regions = {}           # region id -> predicate over A (BoolRef): input regions of recorded known findings
+    excluded = ()          # region ids currently carved out of the precondition (set by the driver, never by hand)
 
     # -- to be provided
     def setup(self, E: SetupEnv):
@@ -302,6 +304,8 @@ def verify(contract: Contract, src: SourceIndex = None, contracts=None, timeout_
         if isinstance(pre, dict):
             pre = z3.And(*pre.values()) if pre else z3.BoolVal(True)
         p.assume(pre)
+        for rid in contract.excluded:
+            p.assume(z3.Not(contract.regions[rid](A)))
         ctx.entry_args = A
         p.entry_names = names
         p.entry_A = A
